@@ -1133,7 +1133,7 @@ func (h *c17Hist) render(seed uint64) []*c17Segment {
 			loopN = 1
 			cur.OpIdx = append(cur.OpIdx, i)
 		case "read":
-			if op.Render == "rangeread" && len(m.Files[op.Path]) > 160 {
+			if op.Render == "rangeread" && len(m.Files[op.Path]) > 48 {
 				op.Render = "direct" // (the emitted character loop costs a sub-shell per character: long contents would only measure that)
 			}
 			var pre strings.Builder
